@@ -809,7 +809,7 @@ func runE3(p *Program, sp *Spec, c *Collector) {
 		for _, e := range ps.Entry {
 			fn := p.Func(e)
 			if fn == nil {
-				c.Fatal("E3: pass %s: entry %s does not resolve", ps.Name, e)
+				c.Anchor(ps.Props, "E3: pass %s: entry %s does not resolve", ps.Name, e)
 				okAnchors = false
 				continue
 			}
@@ -819,7 +819,7 @@ func runE3(p *Program, sp *Spec, c *Collector) {
 			pr, tn := splitTypeKey(ps.Listener)
 			pi.roots = p.methodsDeclaredOn(pr, tn)
 			if len(pi.roots) == 0 {
-				c.Fatal("E3: pass %s: listener %s has no methods", ps.Name, ps.Listener)
+				c.Anchor(ps.Props, "E3: pass %s: listener %s has no methods", ps.Name, ps.Listener)
 				okAnchors = false
 			}
 		}
@@ -992,8 +992,9 @@ func (a *stateAn) checkAccepted(p *Program, acc *AcceptedState, pi *passInfo, g 
 }
 
 // runE3Drivers checks, for a listener pass, every function that calls the constructor:
-//  (a) injected setters follow the constructor before the walk in the same iteration (rule 4);
-//  (b) stale-epoch rule: globals that are per-unit state are not read by code outside the per-unit region.
+//
+//	(a) injected setters follow the constructor before the walk in the same iteration (rule 4);
+//	(b) stale-epoch rule: globals that are per-unit state are not read by code outside the per-unit region.
 func runE3Drivers(p *Program, sp *Spec, c *Collector, a *stateAn, pi *passInfo) {
 	ps := pi.spec
 	ctor := pi.entries[0]
@@ -1023,7 +1024,7 @@ func runE3Drivers(p *Program, sp *Spec, c *Collector, a *stateAn, pi *passInfo) 
 		ds = append(ds, d)
 	}
 	if len(ds) == 0 {
-		c.Fatal("E3: pass %s: no driver calls %s", ps.Name, ctor.Name())
+		c.Anchor(ps.Props, "E3: pass %s: no driver calls %s", ps.Name, ctor.Name())
 	}
 	sort.Slice(ds, func(i, j int) bool { return p.FuncKey(ds[i]) < p.FuncKey(ds[j]) })
 	// unit state = killed at entry ∪ written by the body
@@ -1199,7 +1200,7 @@ func runEpochRule(p *Program, c *Collector, a *stateAn, pi *passInfo, d *ssa.Fun
 		for _, k := range ps.EpochRoots {
 			f := p.Func(k)
 			if f == nil {
-				c.Fatal("E3: pass %s: epoch root %s does not resolve", ps.Name, k)
+				c.Anchor(ps.Props, "E3: pass %s: epoch root %s does not resolve", ps.Name, k)
 				continue
 			}
 			epochRoots[f] = true
